@@ -435,6 +435,14 @@ func groupsBatch(res *vutil.Result, prologue []bs, groups []*caseJ, scratch stri
 			g = &long
 			res.Count("groups_with_long_history", 1)
 		}
+		if g.Fresh && g.Child && gi%3 == 2 && len(g.Pre) > 0 {
+			// a bare `env` line (it prints the environment) between the assignments and the probes: looking at the
+			// environment changes nothing - not for expansion, not for executed programs
+			listed := *g
+			listed.Pre = append(append([]bs{}, g.Pre...), bs("env"))
+			g = &listed
+			res.Count("groups_with_bare_env_line", 1)
+		}
 		if g.Fresh {
 			sc := &script{name: fmt.Sprintf("f-%06d", len(scripts))}
 			sp := addGroup(sc, g)
